@@ -66,6 +66,11 @@ def _cvc5_text(smt2):
     # (_ f 0) is z3's way of printing applications of recursive definitions
     t = smt2.replace('seq.nth_i', 'seq.nth').replace('seq.nth_u', 'seq.nth')
     t = re.sub(r'\(_ ([A-Za-z_][A-Za-z0-9_!]*) 0\)', r'\1', t)
+    # program variables named like theory symbols (a parameter called `mod`): z3 prints them bare, cvc5 rejects the shadowing
+    for sym in ('mod', 'div', 'abs'):
+        if re.search(r'\(declare-fun %s \(\)' % sym, t):
+            t = re.sub(r'(?<![(\w!.$])%s(?![\w!.$])' % sym, sym + '_v', t)
+            t = t.replace('(declare-fun %s_v ()' % sym, '(declare-fun %s_v ()' % sym)
     return '(set-logic ALL)\n' + t
 
 
